@@ -377,7 +377,9 @@ func checkC09(c *Ctx) {
 			case strings.Contains(s, "DeleteKey"):
 			case m.isClaimValueSym(l.S), m.prevClaimLit(l, true):
 			case strings.Contains(s, "select "):
-			case l.S.Op == "call" && m.isLib(calleeOfSym(l.S)) && m.isOwnershipCheck(calleeOfSym(l.S)):
+			case m.verdictCall(Lit{S: l.S, Truth: true}) != nil:
+			case strings.HasPrefix(s, "assertok ") && strings.HasSuffix(s, "("+m.path(m.KV)+")#1"):
+				// "does the store offer the conditional delete": chooses between two forms of the same deletion
 			case strings.Contains(s, m.path(m.Ctx)): // the already-stopped test at entry
 			default:
 				foreign = append(foreign, l.String())
@@ -385,9 +387,10 @@ func checkC09(c *Ctx) {
 		}
 		c.check(len(foreign) == 0, "R5", "Delete depends only on DeleteKey, ownership and the completed wait in "+shortFn(op.Fn), op.Call, "other conditions on the way to Delete: %v", foreign)
 		for _, l := range m.AllGuards(op.Call, false) {
-			if g := calleeOfSym(l.S); l.S.Op == "call" && g != nil && m.isLib(g) && m.isOwnershipCheck(g) {
+			if vc := m.verdictCall(l); vc != nil {
+				g := vc.Call.StaticCallee()
 				m.ownershipExtras[g] = nil
-				m.isOwnershipCheck(g)
+				m.isOwnershipCheck1(g)
 				extras := uniqStrings(m.ownershipExtras[g])
 				c.check(len(extras) == 0, "R5", "ownership verdict demands nothing beyond id and term token in "+shortFn(g), op.Call,
 					"additional conditions for a positive verdict: %v. The record's owner can then fail its own ownership check (e.g. while a heartbeat is in flight) and the key is not deleted although DeleteKey was requested.", extras)
